@@ -92,7 +92,7 @@ Definition at_post (s ns : str) (t : task) : bool :=
   match t_pc t with PFin s' _ => str_eqb s' s && str_eqb (t_ns t) ns | _ => false end.
 
 Definition idle_pc (p : pc) : bool :=
-  match p with PInit | PLookup | PCheck _ | PEnv | PDone => true | _ => false end.
+  match p with PInit | PLookup | PCheck _ | PEnv | PDone | PPre _ | PAcq _ => true | _ => false end.
 Lemma idle_pre s ns t : idle_pc (t_pc t) = true -> at_pre s ns t = false.
 Proof. unfold at_pre. destruct (t_pc t); cbn; congruence. Qed.
 Lemma idle_post s ns t : idle_pc (t_pc t) = true -> at_post s ns t = false.
@@ -198,7 +198,7 @@ Lemma cnt_upd_eq p l i t t' : nth_error l i = Some t -> p t' = p t -> cnt p (upd
 Proof. intros H E. pose proof (cnt_upd p l i t t' H). rewrite E in *. lia. Qed.
 
 Section Invariant.
-  Variables (R : list str) (m0 : mgr).
+  Variables (lk : bool) (R : list str) (m0 : mgr).
 
   Record Safe (c : cfg) : Prop := mkSafe {
     s_wf : WF (c_mgr c);
@@ -434,11 +434,11 @@ Section Invariant.
   (* one access preserves the invariant when no window is open twice *)
   Lemma safe_micro c i t :
     Safe c -> double_window c = false -> nth_error (c_tasks c) i = Some t ->
-    forall m env t' l, micro R (c_mgr c) (c_env c) t = (m, env, t', l) ->
+    forall m env t' l, micro lk R (c_mgr c) (c_env c) t = (m, env, t', l) ->
     Safe (mkCfg m env (upd (c_tasks c) i t') (c_log c ++ l)).
   Proof.
     intros HS Hndw Hn m env t' l. unfold micro.
-    destruct (t_pc t) as [| |osid|sid|sid eio|sid|sid e| |] eqn:Hpc.
+    destruct (t_pc t) as [| |osid|sid|sid eio|sid|sid e| | |psid|aosid] eqn:Hpc.
     - (* PInit *)
       destruct (end_ns _ None) as [t1 l1] eqn:E. intro H; inversion H; subst; clear H.
       apply safe_idle with (t := t); auto.
@@ -448,7 +448,7 @@ Section Invariant.
         eapply end_ns_not_handler; eauto.
     - (* PLookup *)
       destruct (eio_of (t_cause t)) as [eio0|]; intro H; inversion H; subst; clear H.
-      + apply safe_idle with (t := t); auto; [rewrite Hpc; reflexivity|].
+      + apply safe_idle with (t := t); auto; [rewrite Hpc; reflexivity|cbn; destruct lk; reflexivity|].
         intros s ns x [<-|[]]; reflexivity.
       + apply safe_idle with (t := t); auto; [rewrite Hpc; reflexivity|intros ? ? ? []].
     - (* PCheck *)
@@ -512,6 +512,21 @@ Section Invariant.
     - (* PDone *)
       intro H; inversion H; subst; clear H.
       apply safe_idle with (t := t'); auto; [rewrite Hpc; reflexivity|rewrite Hpc; reflexivity|intros ? ? ? []].
+    - (* PPre *)
+      destruct (is_connected (c_mgr c) (Some psid) (t_ns t)).
+      + intro H; inversion H; subst; clear H.
+        apply safe_idle with (t := t); auto; [rewrite Hpc; reflexivity|].
+        intros s ns x [<-|[]]; reflexivity.
+      + destruct (end_ns t None) as [t1 l1] eqn:E. intro H; inversion H; subst; clear H.
+        apply safe_idle with (t := t); auto.
+        * rewrite Hpc; reflexivity.
+        * change t' with (fst (t', l1)). rewrite <- E. apply end_ns_idle.
+        * intros s ns x [<-|Hx]; [reflexivity|]. change l1 with (snd (t', l1)) in Hx. rewrite <- E in Hx.
+          eapply end_ns_not_handler; eauto.
+    - (* PAcq *)
+      intro H; inversion H; subst; clear H.
+      apply safe_idle with (t := t); auto; [rewrite Hpc; reflexivity|].
+      intros s ns x [<-|[]]; reflexivity.
   Qed.
 
 End Invariant.
@@ -520,14 +535,14 @@ End Invariant.
 (* lifting a one-access invariant to schedules of both granularities   *)
 (* ------------------------------------------------------------------ *)
 Section Lift.
+  Variable lk : bool.
   Variable R : list str.
   Variable P : cfg -> Prop.
   Hypothesis P_micro : forall c i t,
     P c -> double_window c = false -> nth_error (c_tasks c) i = Some t ->
-    forall m env t' l, micro R (c_mgr c) (c_env c) t = (m, env, t', l) ->
+    forall m env t' l, micro lk R (c_mgr c) (c_env c) t = (m, env, t', l) ->
     P (mkCfg m env (upd (c_tasks c) i t') (c_log c ++ l)).
 
-  (* ---- thread granularity ---- *)
   Lemma cfg_eta c : c = mkCfg (c_mgr c) (c_env c) (c_tasks c) (c_log c).
   Proof. destruct c; reflexivity. Qed.
   Lemma upd_same {A} (l : list A) : forall i t, nth_error l i = Some t -> upd l i t = l.
@@ -535,24 +550,9 @@ Section Lift.
   Lemma upd_upd {A} (l : list A) : forall i a b, upd (upd l i a) i b = upd l i b.
   Proof. induction l as [|x l IH]; intros [|i] a b; cbn [upd]; try reflexivity. f_equal. apply IH. Qed.
 
-  Lemma lift_step_thread c i :
-    P c -> double_window c = false -> P (fst (step GThread R c i)).
-  Proof.
-    intros HS Hndw. unfold step. destruct (nth_error (c_tasks c) i) as [t|] eqn:Hn; [|exact HS].
-    cbn [move]. destruct (micro R (c_mgr c) (c_env c) t) as [[[m env] t'] l] eqn:E. cbn [fst].
-    eapply P_micro; eauto.
-  Qed.
-
-  Lemma lift_run_thread sched : forall c,
-    P c -> no_double_check GThread R c sched -> P (run GThread R c sched).
-  Proof.
-    induction sched as [|i r IH]; intros c HS H; cbn [run]; [exact HS|].
-    destruct H as [H1 H2]. apply IH; [apply lift_step_thread; assumption|exact H2].
-  Qed.
-
-  (* ---- asyncio granularity ---- *)
+  (* ---- blocks (asyncio granularity) ---- *)
   Lemma end_ns_measure t e m :
-    suspended (t_pc (fst (end_ns t e))) = true \/ measure m (fst (end_ns t e)) <= 3 * List.length (t_todo t) + 2.
+    suspended (t_pc (fst (end_ns t e))) = true \/ measure m (fst (end_ns t e)) <= 4 * List.length (t_todo t) + 2.
   Proof.
     destruct t as [k p n td ex]. unfold end_ns. cbn [t_cause t_todo t_exc t_ns].
     destruct k; [left; reflexivity|left; reflexivity|]. right.
@@ -560,17 +560,17 @@ Section Lift.
   Qed.
 
   Lemma micro_measure m env t m1 env1 t1 l1 :
-    suspended (t_pc t) = false -> micro R m env t = (m1, env1, t1, l1) ->
+    suspended (t_pc t) = false -> micro lk R m env t = (m1, env1, t1, l1) ->
     suspended (t_pc t1) = true \/ measure m1 t1 < measure m t.
   Proof.
     intros Hs. unfold micro, measure at 2.
-    destruct (t_pc t) as [| |osid|sid|sid eio|sid|sid e| |] eqn:Hpc; try discriminate Hs.
+    destruct (t_pc t) as [| |osid|sid|sid eio|sid|sid e| | |psid|aosid] eqn:Hpc; try discriminate Hs.
     - set (t0 := mkTask (t_cause t) PInit (t_ns t) (get_namespaces m) (t_exc t)).
       destruct (end_ns t0 None) as [t2 l2] eqn:E. intro H; inversion H; subst; clear H.
       destruct (end_ns_measure t0 None m1) as [A|A]; rewrite E in A; cbn [fst] in A; [left; exact A|right].
       unfold t0 in A. cbn [t_todo] in A. lia.
     - destruct (eio_of (t_cause t)); intro H; inversion H; subst; clear H; [right|left; reflexivity].
-      cbn [measure set_pc t_pc t_todo]. lia.
+      destruct lk; cbn [measure set_pc t_pc t_todo]; lia.
     - destruct osid as [sid|].
       + destruct (is_connected m (Some sid) (t_ns t)).
         * intro H; inversion H; subst; clear H. right. cbn [measure set_pc t_pc t_todo]. lia.
@@ -585,6 +585,11 @@ Section Lift.
     - destruct (end_ns t e) as [t2 l2] eqn:E. intro H; inversion H; subst; clear H.
       destruct (end_ns_measure t e (mgr_disconnect m sid (t_ns t))) as [A|A]; rewrite E in A; cbn [fst] in A; [left; exact A|right; lia].
     - destruct (eio_of (t_cause t)); intro H; inversion H; subst; clear H; left; reflexivity.
+    - destruct (is_connected m (Some psid) (t_ns t)).
+      + intro H; inversion H; subst; clear H. right. cbn [measure set_pc t_pc t_todo]. lia.
+      + destruct (end_ns t None) as [t2 l2] eqn:E. intro H; inversion H; subst; clear H.
+        destruct (end_ns_measure t None m1) as [A|A]; rewrite E in A; cbn [fst] in A; [left; exact A|right; lia].
+    - intro H; inversion H; subst; clear H. right. cbn [measure set_pc t_pc t_todo]. lia.
   Qed.
 
   Lemma measure_zero m t : measure m t = 0 -> suspended (t_pc t) = true.
@@ -595,7 +600,7 @@ Section Lift.
 
   Lemma lift_cont fuel : forall c i t,
     P c -> quiet_but (c_tasks c) i -> nth_error (c_tasks c) i = Some t ->
-    forall m env t' l, cont R fuel (c_mgr c) (c_env c) t = (m, env, t', l) ->
+    forall m env t' l, cont lk R fuel (c_mgr c) (c_env c) t = (m, env, t', l) ->
     P (mkCfg m env (upd (c_tasks c) i t') (c_log c ++ l)) /\
     (measure (c_mgr c) t <= fuel -> suspended (t_pc t') = true).
   Proof.
@@ -605,8 +610,8 @@ Section Lift.
     - destruct (suspended (t_pc t)) eqn:Hs.
       + intro H; inversion H; subst; clear H. rewrite app_nil_r, (upd_same _ _ _ Hn), <- cfg_eta.
         split; [exact HS|]. intros _. exact Hs.
-      + destruct (micro R (c_mgr c) (c_env c) t) as [[[m1 env1] t1] l1] eqn:E1.
-        destruct (cont R f m1 env1 t1) as [[[m2 env2] t2] l2] eqn:E2.
+      + destruct (micro lk R (c_mgr c) (c_env c) t) as [[[m1 env1] t1] l1] eqn:E1.
+        destruct (cont lk R f m1 env1 t1) as [[[m2 env2] t2] l2] eqn:E2.
         intro H; inversion H; subst; clear H.
         set (c1 := mkCfg m1 env1 (upd (c_tasks c) i t1) (c_log c ++ l1)).
         assert (HS1 : P c1).
@@ -630,13 +635,16 @@ Section Lift.
   Lemma suspended_no_window t : suspended (t_pc t) = true -> window_of t = None.
   Proof. unfold window_of. destruct (t_pc t); try reflexivity; discriminate. Qed.
 
-  Lemma lift_step_async c i :
-    P c -> quiet c -> P (fst (step GAsync R c i)) /\ quiet (fst (step GAsync R c i)).
+  Lemma lift_block c i t :
+    P c -> quiet c -> nth_error (c_tasks c) i = Some t ->
+    forall m env t' l, block lk R (c_mgr c) (c_env c) t = (m, env, t', l) ->
+    P (mkCfg m env (upd (c_tasks c) i t') (c_log c ++ l)) /\
+    quiet (mkCfg m env (upd (c_tasks c) i t') (c_log c ++ l)).
   Proof.
-    intros HS Hq. unfold step. destruct (nth_error (c_tasks c) i) as [t|] eqn:Hn; [|split; assumption].
-    cbn [move]. unfold block.
-    destruct (micro R (c_mgr c) (c_env c) t) as [[[m1 env1] t1] l1] eqn:E1.
-    destruct (cont R (measure m1 t1) m1 env1 t1) as [[[m2 env2] t2] l2] eqn:E2. cbn [fst].
+    intros HS Hq Hn m env t' l. unfold block.
+    destruct (micro lk R (c_mgr c) (c_env c) t) as [[[m1 env1] t1] l1] eqn:E1.
+    destruct (cont lk R (measure m1 t1) m1 env1 t1) as [[[m2 env2] t2] l2] eqn:E2.
+    intro H; inversion H; subst; clear H.
     set (c1 := mkCfg m1 env1 (upd (c_tasks c) i t1) (c_log c ++ l1)).
     assert (HS1 : P c1).
     { eapply P_micro; eauto. apply (quiet_but_ndw _ i). apply quiet_quiet_but. exact Hq. }
@@ -649,55 +657,159 @@ Section Lift.
     apply suspended_no_window. apply B. unfold c1. cbn [c_mgr]. lia.
   Qed.
 
-  (* the repaired granularity: check and mark in one step *)
-  Lemma micro_mark_closes m env t m1 env1 t1 l1 sid :
-    t_pc t = PMark sid -> micro R m env t = (m1, env1, t1, l1) -> window_of t1 = None.
+  (* ---- the lock ---- *)
+  (* at most one task is inside the critical section *)
+  Definition cs_unique (l : list task) : Prop :=
+    forall i j ti tj, nth_error l i = Some ti -> nth_error l j = Some tj ->
+                      in_cs ti = true -> in_cs tj = true -> i = j.
+
+  Lemma window_in_cs t : window_of t <> None -> in_cs t = true.
+  Proof. unfold window_of, in_cs. destruct (t_pc t); try congruence; reflexivity. Qed.
+
+  Lemma cs_unique_tl t l : cs_unique (t :: l) -> cs_unique l.
+  Proof. intros H i j ti tj Hi Hj Ci Cj. assert (S i = S j) by (eapply H; eauto). congruence. Qed.
+
+  Lemma cs_ndw l : cs_unique l -> double_window_l l = false.
   Proof.
-    intros Hpc. unfold micro. rewrite Hpc. destruct (pre_disconnect m sid (t_ns t)) as [m' r]. destruct r as [eio|x].
-    - intro H; inversion H; subst. unfold window_of. cbn. destruct (t_cause t); reflexivity.
-    - destruct (end_ns t (Some x)) as [t2 l2] eqn:E. intro H; inversion H; subst.
-      pose proof (end_ns_idle t (Some x)) as Hi. rewrite E in Hi. cbn [fst] in Hi.
-      unfold window_of. destruct (t_pc t1); try reflexivity; discriminate.
+    induction l as [|t l IH]; intro H; [reflexivity|]. cbn [double_window_l].
+    rewrite (IH (cs_unique_tl _ _ H)), orb_false_r.
+    apply not_true_is_false. intro E. apply existsb_exists in E as (u & Hu & Es).
+    apply In_nth_error in Hu as (j & Hj).
+    assert (0 = S j); [|discriminate].
+    apply (H 0 (S j) t u eq_refl Hj); apply window_in_cs; intro N; rewrite N in Es.
+    - discriminate.
+    - destruct (window_of t) as [[? ?]|]; discriminate.
   Qed.
 
-  Lemma lift_step_locked c i :
-    P c -> quiet c -> P (fst (step GLocked R c i)) /\ quiet (fst (step GLocked R c i)).
+  Lemma other_in_cs_false l : forall i, other_in_cs l i = false ->
+    forall j u, nth_error l j = Some u -> j <> i -> in_cs u = false.
   Proof.
-    intros HS Hq. unfold step. destruct (nth_error (c_tasks c) i) as [t|] eqn:Hn; [|split; assumption].
-    cbn [move]. unfold locked.
-    destruct (micro R (c_mgr c) (c_env c) t) as [[[m1 env1] t1] l1] eqn:E1.
-    set (c1 := mkCfg m1 env1 (upd (c_tasks c) i t1) (c_log c ++ l1)).
-    assert (HS1 : P c1).
-    { eapply P_micro; eauto. apply (quiet_but_ndw _ i). apply quiet_quiet_but. exact Hq. }
-    assert (Hq1 : quiet_but (c_tasks c1) i) by (apply quiet_but_upd, quiet_quiet_but; exact Hq).
-    assert (Hn1 : nth_error (c_tasks c1) i = Some t1) by (eapply nth_upd_same; exact Hn).
-    destruct (t_pc t1) as [| |osid|sid|sid eio|sid|sid e| |] eqn:Hpc1; cbn [fst];
-      try (split; [exact HS1|];
-           intros u Hu; cbn [c_tasks] in Hu; apply in_upd in Hu as [->|Hu]; [|apply Hq; exact Hu];
-           unfold window_of; rewrite Hpc1; reflexivity).
-    destruct (micro R m1 env1 t1) as [[[m2 env2] t2] l2] eqn:E2. cbn [fst].
-    assert (HS2 : P (mkCfg m2 env2 (upd (c_tasks c1) i t2) (c_log c1 ++ l2))).
-    { eapply (P_micro c1 i t1); eauto. apply (quiet_but_ndw _ i). exact Hq1. }
-    unfold c1 in HS2. cbn [c_tasks c_log] in HS2. rewrite upd_upd, <- app_assoc in HS2.
-    split; [exact HS2|].
-    intros u Hu. cbn [c_tasks] in Hu. apply in_upd in Hu as [->|Hu]; [|apply Hq; exact Hu].
-    eapply micro_mark_closes; eauto.
+    induction l as [|t l IH]; intros [|i] H j u Hj N; cbn [other_in_cs] in H.
+    - destruct j; discriminate.
+    - destruct j; discriminate.
+    - destruct j as [|j]; [congruence|]. cbn [nth_error] in Hj.
+      destruct (in_cs u) eqn:E; [|reflexivity]. rewrite <- H. symmetry. apply existsb_exists.
+      exists u. split; [eapply nth_error_In; exact Hj|exact E].
+    - apply orb_false_iff in H as [H1 H2]. destruct j as [|j].
+      + cbn [nth_error] in Hj. inversion Hj; subst. exact H1.
+      + cbn [nth_error] in Hj. apply (IH i H2 j u Hj). congruence.
   Qed.
 
-  Lemma lift_run_locked sched : forall c,
-    P c -> quiet c -> P (run GLocked R c sched) /\ quiet (run GLocked R c sched).
+  Lemma end_ns_not_cs t e : in_cs (fst (end_ns t e)) = false.
+  Proof. destruct t as [k p n td ex]. unfold end_ns. cbn. destruct k; try reflexivity. destruct td; reflexivity. Qed.
+
+  (* with the locked code the critical section is entered through the acquire only *)
+  Lemma micro_cs m env t m' env' t' l :
+    lk = true -> micro lk R m env t = (m', env', t', l) -> in_cs t' = true -> in_cs t = true \/ at_acq t = true.
   Proof.
-    induction sched as [|i r IH]; intros c HS Hq; cbn [run]; [split; assumption|].
-    destruct (lift_step_locked c i HS Hq) as [A B]. apply IH; assumption.
+    intros ->. unfold micro, in_cs at 2, at_acq.
+    destruct (t_pc t) as [| |osid|sid|sid eio|sid|sid e| | |psid|aosid] eqn:Hpc; auto.
+    - destruct (end_ns _ None) as [t1 l1] eqn:E. intro H; inversion H; subst.
+      change t' with (fst (t', l1)). rewrite <- E, end_ns_not_cs. discriminate.
+    - destruct (eio_of (t_cause t)); intro H; inversion H; subst; discriminate.
+    - intro H; inversion H; subst; discriminate.
+    - intro H; inversion H; subst; discriminate.
+    - destruct (end_ns t e) as [t1 l1] eqn:E. intro H; inversion H; subst.
+      change t' with (fst (t', l1)). rewrite <- E, end_ns_not_cs. discriminate.
+    - destruct (eio_of (t_cause t)); intro H; inversion H; subst; discriminate.
+    - intro H; inversion H; subst. unfold in_cs. rewrite Hpc. discriminate.
+    - destruct (is_connected m (Some psid) (t_ns t)).
+      + intro H; inversion H; subst; discriminate.
+      + destruct (end_ns t None) as [t1 l1] eqn:E. intro H; inversion H; subst.
+        change t' with (fst (t', l1)). rewrite <- E, end_ns_not_cs. discriminate.
   Qed.
 
-  Lemma lift_run_async sched : forall c,
-    P c -> quiet c -> P (run GAsync R c sched) /\ quiet (run GAsync R c sched).
+  Lemma lift_locked c i t :
+    lk = true -> P c -> cs_unique (c_tasks c) -> nth_error (c_tasks c) i = Some t ->
+    (at_acq t = true -> other_in_cs (c_tasks c) i = false) ->
+    forall m env t' l, micro lk R (c_mgr c) (c_env c) t = (m, env, t', l) ->
+    P (mkCfg m env (upd (c_tasks c) i t') (c_log c ++ l)) /\ cs_unique (upd (c_tasks c) i t').
   Proof.
-    induction sched as [|i r IH]; intros c HS Hq; cbn [run]; [split; assumption|].
-    destruct (lift_step_async c i HS Hq) as [A B]. apply IH; assumption.
+    intros Hlk HS Hcs Hn Hfree m env t' l E.
+    split; [eapply P_micro; eauto; apply cs_ndw; exact Hcs|].
+    assert (Hothers : in_cs t' = true -> forall j u, nth_error (c_tasks c) j = Some u -> j <> i -> in_cs u = false).
+    { intros Ht' j u Hj N. destruct (micro_cs _ _ _ _ _ _ _ Hlk E Ht') as [A|A].
+      - destruct (in_cs u) eqn:Eu; [|reflexivity]. exfalso. apply N. eapply Hcs; eauto.
+      - eapply other_in_cs_false; eauto. }
+    intros a b ta tb Ha Hb Ca Cb.
+    destruct (Nat.eq_dec a i) as [->|Na]; destruct (Nat.eq_dec b i) as [->|Nb]; [reflexivity| | |].
+    - rewrite (nth_upd_same _ _ _ _ Hn) in Ha. inversion Ha; subst ta.
+      rewrite nth_upd_other in Hb by congruence. rewrite (Hothers Ca b tb Hb Nb) in Cb. discriminate.
+    - rewrite (nth_upd_same _ _ _ _ Hn) in Hb. inversion Hb; subst tb.
+      rewrite nth_upd_other in Ha by congruence. rewrite (Hothers Cb a ta Ha Na) in Ca. discriminate.
+    - rewrite nth_upd_other in Ha, Hb by congruence. eapply Hcs; eauto.
   Qed.
 End Lift.
+
+(* ---- schedules of the three granularities ---- *)
+Section LiftRuns.
+  Variable R : list str.
+  Variable P : cfg -> Prop.
+
+  Section Unlocked.
+    Hypothesis P_micro : forall c i t,
+      P c -> double_window c = false -> nth_error (c_tasks c) i = Some t ->
+      forall m env t' l, micro false R (c_mgr c) (c_env c) t = (m, env, t', l) ->
+      P (mkCfg m env (upd (c_tasks c) i t') (c_log c ++ l)).
+
+    Lemma lift_step_thread c i :
+      P c -> double_window c = false -> P (fst (step GThread R c i)).
+    Proof.
+      intros HS Hndw. unfold step. destruct (nth_error (c_tasks c) i) as [t|] eqn:Hn; [|exact HS].
+      cbn [locked_code andb move]. destruct (micro false R (c_mgr c) (c_env c) t) as [[[m env] t'] l] eqn:E. cbn [fst].
+      eapply P_micro; eauto.
+    Qed.
+
+    Lemma lift_run_thread sched : forall c,
+      P c -> no_double_check GThread R c sched -> P (run GThread R c sched).
+    Proof.
+      induction sched as [|i r IH]; intros c HS H; cbn [run]; [exact HS|].
+      destruct H as [H1 H2]. apply IH; [apply lift_step_thread; assumption|exact H2].
+    Qed.
+
+    Lemma lift_step_async c i :
+      P c -> quiet c -> P (fst (step GAsync R c i)) /\ quiet (fst (step GAsync R c i)).
+    Proof.
+      intros HS Hq. unfold step. destruct (nth_error (c_tasks c) i) as [t|] eqn:Hn; [|split; assumption].
+      cbn [locked_code andb move]. destruct (block false R (c_mgr c) (c_env c) t) as [[[m env] t'] l] eqn:E. cbn [fst].
+      eapply (lift_block false R P P_micro); eauto.
+    Qed.
+
+    Lemma lift_run_async sched : forall c,
+      P c -> quiet c -> P (run GAsync R c sched) /\ quiet (run GAsync R c sched).
+    Proof.
+      induction sched as [|i r IH]; intros c HS Hq; cbn [run]; [split; assumption|].
+      destruct (lift_step_async c i HS Hq) as [A B]. apply IH; assumption.
+    Qed.
+  End Unlocked.
+
+  Section Locked.
+    Hypothesis P_micro : forall c i t,
+      P c -> double_window c = false -> nth_error (c_tasks c) i = Some t ->
+      forall m env t' l, micro true R (c_mgr c) (c_env c) t = (m, env, t', l) ->
+      P (mkCfg m env (upd (c_tasks c) i t') (c_log c ++ l)).
+
+    Lemma lift_step_locked c i :
+      P c -> cs_unique (c_tasks c) ->
+      P (fst (step GLocked R c i)) /\ cs_unique (c_tasks (fst (step GLocked R c i))).
+    Proof.
+      intros HS Hcs. unfold step. destruct (nth_error (c_tasks c) i) as [t|] eqn:Hn; [|split; assumption].
+      cbn [locked_code andb move].
+      destruct (at_acq t && other_in_cs (c_tasks c) i) eqn:Eb; [split; assumption|].
+      destruct (micro true R (c_mgr c) (c_env c) t) as [[[m env] t'] l] eqn:E. cbn [fst c_tasks].
+      eapply (lift_locked true R P P_micro); eauto.
+      intro Ha. rewrite Ha in Eb. exact Eb.
+    Qed.
+
+    Lemma lift_run_locked sched : forall c,
+      P c -> cs_unique (c_tasks c) ->
+      P (run GLocked R c sched) /\ cs_unique (c_tasks (run GLocked R c sched)).
+    Proof.
+      induction sched as [|i r IH]; intros c HS Hq; cbn [run]; [split; assumption|].
+      destruct (lift_step_locked c i HS Hq) as [A B]. apply IH; assumption.
+    Qed.
+  End Locked.
+End LiftRuns.
 
 (* ------------------------------------------------------------------ *)
 (* the remaining invariants: no exception, progress, environ           *)
@@ -705,9 +817,9 @@ End Lift.
 Lemma end_ns_none_labels t : snd (end_ns t None) = [].
 Proof. destruct t as [k p n td ex]. unfold end_ns. cbn. destruct k; try reflexivity. destruct td; reflexivity. Qed.
 
-Lemma micro_cause R m env t m' env' t' l : micro R m env t = (m', env', t', l) -> t_cause t' = t_cause t.
+Lemma micro_cause lk R m env t m' env' t' l : micro lk R m env t = (m', env', t', l) -> t_cause t' = t_cause t.
 Proof.
-  unfold micro. destruct (t_pc t) as [| |osid|sid|sid eio|sid|sid e| |].
+  unfold micro. destruct (t_pc t) as [| |osid|sid|sid eio|sid|sid e| | |psid|aosid].
   - destruct (end_ns _ None) as [t1 l1] eqn:E. intro H; inversion H; subst.
     change t' with (fst (t', l1)). rewrite <- E, end_ns_cause. reflexivity.
   - destruct (eio_of (t_cause t)); intro H; inversion H; reflexivity.
@@ -727,17 +839,22 @@ Proof.
     change t' with (fst (t', l1)). rewrite <- E, end_ns_cause. reflexivity.
   - destruct (eio_of (t_cause t)); intro H; inversion H; reflexivity.
   - intro H; inversion H; reflexivity.
+  - destruct (is_connected m (Some psid) (t_ns t)).
+    + intro H; inversion H; reflexivity.
+    + destruct (end_ns t None) as [t1 l1] eqn:E. intro H; inversion H; subst.
+      change t' with (fst (t', l1)). rewrite <- E, end_ns_cause. reflexivity.
+  - intro H; inversion H; reflexivity.
 Qed.
 
 Section Full.
-  Variables (R : list str) (m0 : mgr) (env0 : list str) (causes : list cause).
+  Variables (lk : bool) (R : list str) (m0 : mgr) (env0 : list str) (causes : list cause).
   Hypothesis WF0 : WF m0.
 
   (* what the mark step does in a safe state without a doubly open window *)
   Lemma micro_mark_ok c i t sid :
     Safe m0 c -> double_window c = false -> nth_error (c_tasks c) i = Some t -> t_pc t = PMark sid ->
     exists e, mem (c_mgr c) (t_ns t) PNone sid = Some e /\
-      micro R (c_mgr c) (c_env c) t =
+      micro lk R (c_mgr c) (c_env c) t =
       (fst (pre_disconnect (c_mgr c) sid (t_ns t)), c_env c,
        set_pc t (match t_cause t with CApi _ _ => PSend sid (Some e) | _ => PCall sid end),
        [LMark sid (t_ns t) (Ok (Some e))]).
@@ -763,14 +880,14 @@ Section Full.
 
   Lemma calm_micro c i t :
     Safe m0 c -> double_window c = false -> Calm c -> nth_error (c_tasks c) i = Some t ->
-    forall m env t' l, micro R (c_mgr c) (c_env c) t = (m, env, t', l) ->
+    forall m env t' l, micro lk R (c_mgr c) (c_env c) t = (m, env, t', l) ->
     Calm (mkCfg m env (upd (c_tasks c) i t') (c_log c ++ l)).
   Proof.
     intros HS Hndw HC Hn m env t' l E HR. destruct (HC HR) as [Hr Ht]. cbn [c_log c_tasks].
     assert (Hct : calm_task t) by (apply Ht; eapply nth_error_In; exact Hn).
     destruct Hct as [Hexc Hfin].
     assert (Goal : raised l = false /\ calm_task t').
-    { destruct (t_pc t) as [| |osid|sid|sid eio|sid|sid e| |] eqn:Hpc.
+    { destruct (t_pc t) as [| |osid|sid|sid eio|sid|sid e| | |psid|aosid] eqn:Hpc.
       - unfold micro in E. rewrite Hpc in E.
         set (t0 := mkTask (t_cause t) PInit (t_ns t) (get_namespaces (c_mgr c)) (t_exc t)) in E.
         destruct (end_ns t0 None) as [t1 l1] eqn:E1. inversion E; subst; clear E.
@@ -778,7 +895,7 @@ Section Full.
         split; [reflexivity|]. change t' with (fst (t', @nil lbl)). rewrite <- E1. apply end_ns_calm. exact Hexc.
       - unfold micro in E. rewrite Hpc in E.
         destruct (eio_of (t_cause t)); inversion E; subst; clear E; (split; [reflexivity|]);
-          (split; [exact Hexc|cbn; discriminate]).
+          (split; [exact Hexc|cbn; destruct lk; discriminate]).
       - unfold micro in E. rewrite Hpc in E.
         assert (Hend : forall t1 l1, end_ns t None = (t1, l1) -> l1 = [] /\ calm_task t1).
         { intros t1 l1 E1. split; [change l1 with (snd (t1, l1)); rewrite <- E1; apply end_ns_none_labels|].
@@ -804,7 +921,15 @@ Section Full.
         destruct (eio_of (t_cause t)); inversion E; subst; clear E; (split; [reflexivity|]);
           (split; [exact Hexc|cbn; discriminate]).
       - unfold micro in E. rewrite Hpc in E. inversion E; subst; clear E.
-        split; [reflexivity|]. split; [exact Hexc|rewrite Hpc; discriminate]. }
+        split; [reflexivity|]. split; [exact Hexc|rewrite Hpc; discriminate].
+      - unfold micro in E. rewrite Hpc in E.
+        destruct (is_connected (c_mgr c) (Some psid) (t_ns t)).
+        + inversion E; subst; clear E. split; [reflexivity|]. split; [exact Hexc|cbn; discriminate].
+        + destruct (end_ns t None) as [t1 l1] eqn:E1. inversion E; subst; clear E.
+          assert (l1 = []) by (change l1 with (snd (t', l1)); rewrite <- E1; apply end_ns_none_labels). subst l1.
+          split; [reflexivity|]. change t' with (fst (t', @nil lbl)). rewrite <- E1. apply end_ns_calm. exact Hexc.
+      - unfold micro in E. rewrite Hpc in E. inversion E; subst; clear E.
+        split; [reflexivity|]. split; [exact Hexc|cbn; discriminate]. }
     destruct Goal as [G1 G2]. split.
     - rewrite raised_app, Hr, G1. reflexivity.
     - intros u Hu. apply in_upd in Hu as [->|Hu]; [exact G2|apply Ht; exact Hu].
@@ -817,29 +942,29 @@ Section Full.
     | CClient _ _ => t_todo t = [] /\ t_pc t <> PInit /\ t_pc t <> PEnv
     | CLoss _ _ => True
     end.
-  Lemma tidy_micro m env t m' env' t' l : tidy t -> micro R m env t = (m', env', t', l) -> tidy t'.
+  Lemma tidy_micro m env t m' env' t' l : tidy t -> micro lk R m env t = (m', env', t', l) -> tidy t'.
   Proof.
     destruct t as [k p n td ex]. unfold tidy, micro. cbn [t_cause t_pc t_ns t_todo t_exc].
-    destruct k as [s0 n0|e0 n0|e0 r0]; destruct p as [| |osid|sid|sid eio|sid|sid e| |]; cbn;
+    destruct lk; destruct k as [s0 n0|e0 n0|e0 r0]; destruct p as [| |osid|sid|sid eio|sid|sid e| | |psid|aosid]; cbn -[is_connected pre_disconnect];
       intros Ht E;
       repeat (match type of E with
               | context [is_connected ?a ?b ?c] => destruct (is_connected a b c)
               | context [pre_disconnect ?a ?b ?c] => destruct (pre_disconnect a b c) as [? [?|?]]
               | context [match ?x with Some _ => _ | None => _ end] => destruct x
               | context [match ?x with [] => _ | _ :: _ => _ end] => destruct x
-              end; cbn in E);
+              end; cbn -[is_connected pre_disconnect] in E);
       try (inversion E; subst; cbn; intuition congruence).
   Qed.
-  Lemma tidy_spawn k : tidy (spawn k).
-  Proof. destruct k; cbn; intuition congruence. Qed.
+  Lemma tidy_spawn k : tidy (spawn lk k).
+  Proof. destruct k; destruct lk; cbn; intuition congruence. Qed.
 
   (* ---- the manager only moves towards "not connected" ---- *)
   Lemma micro_mgr m env t m' env' t' l :
-    micro R m env t = (m', env', t', l) ->
+    micro lk R m env t = (m', env', t', l) ->
     m' = m \/ (exists sid, t_pc t = PMark sid /\ m' = fst (pre_disconnect m sid (t_ns t))) \/
     (exists sid e, t_pc t = PFin sid e /\ m' = mgr_disconnect m sid (t_ns t)).
   Proof.
-    unfold micro. destruct (t_pc t) as [| |osid|sid|sid eio|sid|sid e| |].
+    unfold micro. destruct (t_pc t) as [| |osid|sid|sid eio|sid|sid e| | |psid|aosid].
     - destruct (end_ns _ None). intro H; inversion H; auto.
     - destruct (eio_of (t_cause t)); intro H; inversion H; auto.
     - destruct osid as [sid|]; [destruct (is_connected m (Some sid) (t_ns t))|].
@@ -855,10 +980,13 @@ Section Full.
     - right; right. exists sid, e. split; [reflexivity|]. destruct (end_ns t e). inversion H; reflexivity.
     - destruct (eio_of (t_cause t)); intro H; inversion H; auto.
     - intro H; inversion H; auto.
+    - destruct (is_connected m (Some psid) (t_ns t)); [intro H; inversion H; auto|].
+      destruct (end_ns t None). intro H; inversion H; auto.
+    - intro H; inversion H; auto.
   Qed.
 
   Lemma micro_mono m env t m' env' t' l :
-    WF m -> micro R m env t = (m', env', t', l) ->
+    WF m -> micro lk R m env t = (m', env', t', l) ->
     forall ns s, mb m' ns s = 1 -> pcount m' ns s = 0 -> mb m ns s = 1 /\ pcount m ns s = 0.
   Proof.
     intros HW E ns s H1 H2. destruct (micro_mgr _ _ _ _ _ _ _ E) as [->|[(sid & _ & ->)|(sid & e & _ & ->)]].
@@ -883,6 +1011,8 @@ Section Full.
     | PMark s' => (t_ns t = ns /\ s' = s) \/ In ns (t_todo t)
     | PSend _ _ | PCall _ | PFin _ _ => In ns (t_todo t)
     | PEnv | PDone => False
+    | PPre s' => (t_ns t = ns /\ s' = s) \/ In ns (t_todo t)
+    | PAcq o => (t_ns t = ns /\ o = Some s) \/ In ns (t_todo t)
     end.
   Definition Ahead (c : cfg) : Prop :=
     forall t, In t (c_tasks c) ->
@@ -909,12 +1039,12 @@ Section Full.
   Lemma ahead_moving c i t s ns :
     Safe m0 c -> double_window c = false -> nth_error (c_tasks c) i = Some t -> tidy t ->
     targets m0 (t_cause t) s ns -> ahead s ns t ->
-    forall m env t' l, micro R (c_mgr c) (c_env c) t = (m, env, t', l) ->
+    forall m env t' l, micro lk R (c_mgr c) (c_env c) t = (m, env, t', l) ->
     mb m ns s = 1 -> pcount m ns s = 0 -> ahead s ns t'.
   Proof.
     intros HS Hndw Hn Htidy Htg Ha m env t' l E Hmb Hpc0.
     destruct (micro_mono _ _ _ _ _ _ _ (s_wf m0 c HS) E ns s Hmb Hpc0) as [Hmbc Hpcc].
-    destruct (t_pc t) as [| |osid|sid|sid eio|sid|sid e| |] eqn:Hpc; unfold ahead in Ha; rewrite Hpc in Ha.
+    destruct (t_pc t) as [| |osid|sid|sid eio|sid|sid e| | |psid|aosid] eqn:Hpc; unfold ahead in Ha; rewrite Hpc in Ha.
     - (* PInit *)
       unfold micro in E. rewrite Hpc in E.
       set (t0 := mkTask (t_cause t) PInit (t_ns t) (get_namespaces (c_mgr c)) (t_exc t)) in E.
@@ -925,7 +1055,9 @@ Section Full.
       + unfold t0. cbn [t_todo]. apply mb_one in Hmbc as [e0 He0]. eapply member_namespace; exact He0.
     - (* PLookup *)
       unfold micro in E. rewrite Hpc in E. destruct (eio_of (t_cause t)) as [eio|] eqn:Eeio.
-      + inversion E; subst; clear E. unfold ahead. cbn [set_pc t_pc t_ns t_todo].
+      + inversion E; subst; clear E.
+        assert (Hgoal : (t_ns t = ns /\ sid_from_eio (c_mgr c) eio (t_ns t) = Some s) \/ In ns (t_todo t));
+          [|unfold ahead; destruct lk; cbn [set_pc t_pc t_ns t_todo]; exact Hgoal].
         destruct Ha as [Hns|Hin]; [left|right; exact Hin]. split; [exact Hns|]. rewrite Hns.
         apply sid_from_eio_spec; [apply HS|].
         pose proof (target_member _ _ _ _ Eeio Htg) as Hm0.
@@ -959,18 +1091,30 @@ Section Full.
       change t' with (fst (t', l1)). rewrite <- E1. apply end_ns_ahead; assumption.
     - destruct Ha.
     - destruct Ha.
+    - (* PPre *)
+      unfold micro in E. rewrite Hpc in E.
+      destruct Ha as [[Hns ->]|Hin].
+      + assert (Hc : is_connected (c_mgr c) (Some s) (t_ns t) = true).
+        { rewrite Hns, is_connected_spec, Hpcc. cbn. apply mb_one in Hmbc as [e0 ->]. reflexivity. }
+        rewrite Hc in E. inversion E; subst; clear E. unfold ahead. cbn. left. auto.
+      + destruct (is_connected (c_mgr c) (Some psid) (t_ns t)).
+        * inversion E; subst; clear E. unfold ahead. cbn. right. exact Hin.
+        * destruct (end_ns t None) as [t1 l1] eqn:E1. inversion E; subst; clear E.
+          change t' with (fst (t', l1)). rewrite <- E1. apply end_ns_ahead; assumption.
+    - (* PAcq *)
+      unfold micro in E. rewrite Hpc in E. inversion E; subst; clear E. unfold ahead. cbn. exact Ha.
   Qed.
 
   Lemma ahead_micro c i t :
     Safe m0 c -> double_window c = false -> Ahead c -> nth_error (c_tasks c) i = Some t ->
-    forall m env t' l, micro R (c_mgr c) (c_env c) t = (m, env, t', l) ->
+    forall m env t' l, micro lk R (c_mgr c) (c_env c) t = (m, env, t', l) ->
     Ahead (mkCfg m env (upd (c_tasks c) i t') (c_log c ++ l)).
   Proof.
     intros HS Hndw HA Hn m env t' l E u Hu. cbn [c_tasks c_mgr] in *.
     assert (Ht : In t (c_tasks c)) by (eapply nth_error_In; exact Hn).
     apply in_upd in Hu as [->|Hu].
     - destruct (HA t Ht) as [Htidy Hah]. split; [eapply tidy_micro; eauto|].
-      intros s ns Htg Hmb Hpc0. rewrite (micro_cause _ _ _ _ _ _ _ _ E) in Htg.
+      intros s ns Htg Hmb Hpc0. rewrite (micro_cause _ _ _ _ _ _ _ _ _ E) in Htg.
       destruct (micro_mono _ _ _ _ _ _ _ (s_wf m0 c HS) E ns s Hmb Hpc0) as [Hmbc Hpcc].
       eapply ahead_moving; eauto.
     - destruct (HA u Hu) as [Htidy Hah]. split; [exact Htidy|].
@@ -992,31 +1136,31 @@ Section Full.
   Qed.
 
   Lemma micro_env m env t m' env' t' l :
-    tidy t -> micro R m env t = (m', env', t', l) ->
+    tidy t -> micro lk R m env t = (m', env', t', l) ->
     (env' = env /\ (is_loss (t_cause t) = true -> t_pc t' = PDone -> t_pc t = PDone)) \/
     (exists e r, t_cause t = CLoss e r /\ env' = remove_key e env).
   Proof.
     destruct t as [k p n td ex]. unfold tidy, micro. cbn [t_cause t_pc t_ns t_todo t_exc].
-    destruct k as [s0 n0|e0 n0|e0 r0]; destruct p as [| |osid|sid|sid eio|sid|sid e| |]; cbn;
+    destruct lk; destruct k as [s0 n0|e0 n0|e0 r0]; destruct p as [| |osid|sid|sid eio|sid|sid e| | |psid|aosid]; cbn -[is_connected pre_disconnect];
       intros Ht E;
       repeat (match type of E with
               | context [is_connected ?a ?b ?c] => destruct (is_connected a b c)
               | context [pre_disconnect ?a ?b ?c] => destruct (pre_disconnect a b c) as [? [?|?]]
               | context [match ?x with Some _ => _ | None => _ end] => destruct x
               | context [match ?x with [] => _ | _ :: _ => _ end] => destruct x
-              end; cbn in E);
+              end; cbn -[is_connected pre_disconnect] in E);
       try (inversion E; subst; cbn; first [left; split; [reflexivity|intros; congruence] | right; eauto]);
       try (exfalso; intuition congruence).
   Qed.
 
   Lemma envi_micro c i t :
     Envi c -> tidy t -> nth_error (c_tasks c) i = Some t ->
-    forall m env t' l, micro R (c_mgr c) (c_env c) t = (m, env, t', l) ->
+    forall m env t' l, micro lk R (c_mgr c) (c_env c) t = (m, env, t', l) ->
     Envi (mkCfg m env (upd (c_tasks c) i t') (c_log c ++ l)).
   Proof.
     intros (Hc & Hl & Hk) Htidy Hn m env t' l E. unfold Envi. cbn [c_tasks c_env].
     assert (Ht : In t (c_tasks c)) by (eapply nth_error_In; exact Hn).
-    pose proof (micro_cause _ _ _ _ _ _ _ _ E) as Hcause.
+    pose proof (micro_cause _ _ _ _ _ _ _ _ _ E) as Hcause.
     split; [rewrite (map_upd t_cause _ _ _ _ Hn Hcause); exact Hc|].
     destruct (micro_env _ _ _ _ _ _ _ Htidy E) as [[-> Hd]|(e0 & r0 & Hk0 & ->)].
     - split; [|exact Hk].
@@ -1036,7 +1180,7 @@ Section Full.
 
   Lemma inv_micro c i t :
     Inv c -> double_window c = false -> nth_error (c_tasks c) i = Some t ->
-    forall m env t' l, micro R (c_mgr c) (c_env c) t = (m, env, t', l) ->
+    forall m env t' l, micro lk R (c_mgr c) (c_env c) t = (m, env, t', l) ->
     Inv (mkCfg m env (upd (c_tasks c) i t') (c_log c ++ l)).
   Proof.
     intros (HS & HC & HA & HE) Hndw Hn m env t' l E.
@@ -1052,14 +1196,15 @@ Section Full.
   Lemma pcount0 ns s : pcount m0 ns s = 0.
   Proof. unfold pcount, plist, agetd. rewrite PEND0. reflexivity. Qed.
 
-  Lemma spawn_idle k : idle_pc (t_pc (spawn k)) = true.
-  Proof. destruct k; reflexivity. Qed.
-  Lemma init_idle t : In t (map spawn causes) -> idle_pc (t_pc t) = true.
+  Lemma spawn_idle k : idle_pc (t_pc (spawn lk k)) = true.
+  Proof. destruct k; destruct lk; reflexivity. Qed.
+  Definition c_init : cfg := mkCfg m0 env0 (map (spawn lk) causes) [].
+  Lemma init_idle t : In t (map (spawn lk) causes) -> idle_pc (t_pc t) = true.
   Proof. intro H. apply in_map_iff in H as (k & <- & _). apply spawn_idle. Qed.
 
-  Lemma inv_init : Inv (init m0 env0 causes).
+  Lemma inv_init : Inv c_init.
   Proof.
-    unfold init. split; [|split; [|split]].
+    unfold c_init. split; [|split; [|split]].
     - constructor; cbn [c_mgr c_tasks c_log].
       + exact WF0.
       + exact CB0.
@@ -1077,24 +1222,24 @@ Section Full.
       + reflexivity.
       + intros s ns H1 H2. lia.
     - intros _. split; [reflexivity|]. cbn [c_tasks]. intros t Ht. apply in_map_iff in Ht as (k & <- & _).
-      destruct k; split; cbn; try reflexivity; discriminate.
+      destruct k; destruct lk; split; cbn; try reflexivity; discriminate.
     - intros t Ht. cbn [c_tasks] in Ht. apply in_map_iff in Ht as (k & <- & _). split; [apply tidy_spawn|].
-      intros s ns Htg _ _. destruct k; cbn in *; unfold ahead; cbn.
-      + destruct Htg as [-> ->]. left. auto.
-      + destruct Htg as [-> _]. left. reflexivity.
+      intros s ns Htg _ _. destruct k; cbn in Htg; unfold ahead.
+      + destruct Htg as [-> ->]. destruct lk; cbn; left; auto.
+      + destruct Htg as [-> _]. cbn. left. reflexivity.
       + exact I.
     - unfold Envi. cbn [c_tasks c_env]. split; [|split].
       + rewrite map_map. rewrite <- (map_id causes) at 2. apply map_ext. intros k. destruct k; reflexivity.
-      + intros t e r Ht _ Hp. apply in_map_iff in Ht as (k & <- & _). destruct k; discriminate.
+      + intros t e r Ht _ Hp. apply in_map_iff in Ht as (k & <- & _). destruct k; destruct lk; discriminate.
       + intros e He _. exact He.
   Qed.
 
-  Lemma quiet_init : quiet (init m0 env0 causes).
+  Lemma quiet_init : quiet c_init.
   Proof.
-    intros t Ht. cbn [init c_tasks] in Ht. pose proof (init_idle t Ht) as H.
+    intros t Ht. cbn [c_init c_tasks] in Ht. pose proof (init_idle t Ht) as H.
     unfold window_of. destruct (t_pc t); try reflexivity; discriminate.
   Qed.
-  Lemma ndw_init : double_window (init m0 env0 causes) = false.
+  Lemma ndw_init : double_window c_init = false.
   Proof. apply no_window_ndw. apply quiet_init. Qed.
 
   (* ---- from the invariant to the property ---- *)
@@ -1161,45 +1306,92 @@ Section Theorems.
   Let WF0 : WF m0 := proj1 Q0.
   Let CB0 : NoDup (map fst (callbacks m0)) := proj1 (proj2 Q0).
   Let PEND0 : pending m0 = [] := proj2 (proj2 Q0).
-  Let c0 := init m0 env0 causes.
+  Let c0 := init GThread m0 env0 causes.
   Let I := Inv R m0 env0 causes.
-  Let I_micro : forall c i t, I c -> double_window c = false -> nth_error (c_tasks c) i = Some t ->
-      forall m env t' l, micro R (c_mgr c) (c_env c) t = (m, env, t', l) ->
-      I (mkCfg m env (upd (c_tasks c) i t') (c_log c ++ l)) := inv_micro R m0 env0 causes WF0.
+  Let I_micro lk : forall c i t, I c -> double_window c = false -> nth_error (c_tasks c) i = Some t ->
+      forall m env t' l, micro lk R (c_mgr c) (c_env c) t = (m, env, t', l) ->
+      I (mkCfg m env (upd (c_tasks c) i t') (c_log c ++ l)) := inv_micro lk R m0 env0 causes WF0.
+  Let I_init lk : I (c_init lk m0 env0 causes) := inv_init lk R m0 env0 causes WF0 CB0 PEND0.
 
   (* asyncio granularity: every schedule *)
   Theorem once_async sched : outcome R m0 env0 causes (run_sched GAsync R causes sched m0 env0).
   Proof.
     unfold run_sched. apply (inv_outcome R m0 env0 causes WF0).
-    apply (lift_run_async R I I_micro sched c0).
-    - apply inv_init; assumption.
-    - apply quiet_init.
+    apply (lift_run_async R I (I_micro false) sched (init GAsync m0 env0 causes)).
+    - apply (I_init false).
+    - apply (quiet_init false).
   Qed.
 
   (* asyncio granularity: no task is ever suspended inside a check-then-mark window *)
   Theorem async_window_closed sched :
     forall t, In t (c_tasks (run_sched GAsync R causes sched m0 env0)) -> window_of t = None.
   Proof.
-    unfold run_sched. apply (lift_run_async R I I_micro sched c0).
-    - apply inv_init; assumption.
-    - apply quiet_init.
+    unfold run_sched. apply (lift_run_async R I (I_micro false) sched (init GAsync m0 env0 causes)).
+    - apply (I_init false).
+    - apply (quiet_init false).
   Qed.
 
-  (* thread granularity of the repaired code (check and mark in one critical section): every schedule *)
+  (* thread granularity of the code with self._disconnect_lock: every schedule *)
+  Lemma cs_unique_init : cs_unique (c_tasks (init GLocked m0 env0 causes)).
+  Proof.
+    intros i j ti tj Hi _ Ci _. exfalso. apply nth_error_In in Hi. cbn [init c_tasks locked_code] in Hi.
+    apply in_map_iff in Hi as (k & <- & _). destruct k; discriminate.
+  Qed.
+
   Theorem locked_all sched : outcome R m0 env0 causes (run_sched GLocked R causes sched m0 env0).
   Proof.
     unfold run_sched. apply (inv_outcome R m0 env0 causes WF0).
-    apply (lift_run_locked R I I_micro sched c0).
-    - apply inv_init; assumption.
-    - apply quiet_init.
+    apply (lift_run_locked R I (I_micro true) sched (init GLocked m0 env0 causes)).
+    - apply (I_init true).
+    - apply cs_unique_init.
   Qed.
 
-  (* thread granularity: every schedule that never opens the window of one client twice *)
+  (* the three clauses of the property, spelled out *)
+  Theorem locked_once sched :
+    let c := run_sched GLocked R causes sched m0 env0 in
+    (forall s ns, hcount s ns (c_log c) <= 1) /\
+    (forall s ns, 1 <= hcount s ns (c_log c) -> in_room m0 ns PNone s = true) /\
+    (all_done c = true -> forall k s ns, In k causes -> targets m0 k s ns ->
+       in_room m0 ns PNone s = true -> hcount s ns (c_log c) = 1).
+  Proof.
+    cbv zeta. pose proof (locked_all sched) as H. split; [apply H|]. split; [apply H|].
+    intros Hd k s ns Hk Ht Hi. apply (o_final _ _ _ _ _ H Hd k s ns Hk Ht Hi).
+  Qed.
+  Theorem locked_no_raise sched :
+    R = [] -> raised (c_log (run_sched GLocked R causes sched m0 env0)) = false.
+  Proof. apply (o_no_raise _ _ _ _ _ (locked_all sched)). Qed.
+  Theorem locked_no_trace sched :
+    let c := run_sched GLocked R causes sched m0 env0 in
+    all_done c = true ->
+    (forall k s ns, In k causes -> targets m0 k s ns -> in_room m0 ns PNone s = true ->
+       (forall r, room_ok r -> in_room (c_mgr c) ns r s = false) /\
+       is_connected (c_mgr c) (Some s) ns = false /\
+       aget str_eqb (callbacks (c_mgr c)) s = None) /\
+    (forall s ns, is_pending (c_mgr c) s ns = false) /\
+    (forall e r, In (CLoss e r) causes -> ~ In e (c_env c)).
+  Proof.
+    cbv zeta. pose proof (locked_all sched) as H. intro Hd. split; [|split].
+    - intros k s ns Hk Ht Hi. destruct (o_final _ _ _ _ _ H Hd k s ns Hk Ht Hi) as (_ & A & B & C). auto.
+    - apply (o_no_pending _ _ _ _ _ H Hd).
+    - apply (o_env_lost _ _ _ _ _ H Hd).
+  Qed.
+
+  (* ... where at most one task is ever between its locked check and its mark *)
+  Theorem locked_window_exclusive sched :
+    double_window (run_sched GLocked R causes sched m0 env0) = false.
+  Proof.
+    unfold run_sched, double_window. apply cs_ndw.
+    apply (lift_run_locked R I (I_micro true) sched (init GLocked m0 env0 causes)).
+    - apply (I_init true).
+    - apply cs_unique_init.
+  Qed.
+
+  (* thread granularity WITHOUT the lock: every schedule that never opens the window of one client twice *)
   Theorem thread_except sched :
     no_double_check GThread R c0 sched -> outcome R m0 env0 causes (run_sched GThread R causes sched m0 env0).
   Proof.
     intro H. unfold run_sched. apply (inv_outcome R m0 env0 causes WF0).
-    apply (lift_run_thread R I I_micro sched c0); [apply inv_init; assumption|exact H].
+    apply (lift_run_thread R I (I_micro false) sched c0); [apply (I_init false)|exact H].
   Qed.
 
   (* every violating schedule has a prefix after which two tasks stand inside the window of
@@ -1223,7 +1415,7 @@ Section Theorems.
 
   (* tasks run one after the other *)
   Lemma in_flight_window t : in_flight t = false -> window_of t = None.
-  Proof. unfold in_flight, window_of. destruct (t_pc t); try reflexivity. destruct (t_pc (spawn (t_cause t))); discriminate. Qed.
+  Proof. unfold in_flight, window_of. destruct (t_pc t); try reflexivity. destruct (t_pc (spawn false (t_cause t))); discriminate. Qed.
 
   Lemma others_idle_quiet l : forall i, others_idle l i = true -> quiet_but l i.
   Proof.
@@ -1240,6 +1432,7 @@ Section Theorems.
   Lemma step_quiet_but g c i : quiet_but (c_tasks c) i -> quiet_but (c_tasks (fst (step g R c i))) i.
   Proof.
     intro H. unfold step. destruct (nth_error (c_tasks c) i) as [t|]; [|exact H].
+    destruct (locked_code g && at_acq t && other_in_cs (c_tasks c) i); [exact H|].
     destruct (move g R (c_mgr c) (c_env c) t) as [[[m env] t'] l]. cbn [fst c_tasks].
     intros j u Hj N. rewrite nth_upd_other in Hj by congruence. eauto.
   Qed.
@@ -1255,7 +1448,7 @@ Section Theorems.
   Theorem thread_sequential sched :
     sequential GThread R c0 sched -> outcome R m0 env0 causes (run_sched GThread R causes sched m0 env0).
   Proof.
-    intro H. apply thread_except. apply sequential_ndc; [|exact H]. apply ndw_init.
+    intro H. apply thread_except. apply sequential_ndc; [|exact H]. apply (ndw_init false).
   Qed.
 End Theorems.
 
@@ -1324,8 +1517,8 @@ Qed.
 
 (* in both witnesses the window of (S0, "/") is open in both tasks after three choices *)
 Example thread_refuted_window :
-  double_window (prefix_cfg GThread [] (init x_lone [x_e0] x_two) x_sched_twice 3) = true /\
-  double_window (prefix_cfg GThread [] (init x_lone [x_e0] x_two) x_sched_keyerror 3) = true.
+  double_window (prefix_cfg GThread [] (init GThread x_lone [x_e0] x_two) x_sched_twice 3) = true /\
+  double_window (prefix_cfg GThread [] (init GThread x_lone [x_e0] x_two) x_sched_keyerror 3) = true.
 Proof. vm_compute. split; reflexivity. Qed.
 
 (* the same two causes at asyncio granularity, same choices: once, no error, nothing left *)
@@ -1335,18 +1528,22 @@ Example async_same_choices :
   c_mgr c = mgr_init.
 Proof. vm_compute. repeat split. Qed.
 
-(* the refutation schedules on the repaired granularity: once, no error, nothing left *)
-Example locked_same_choices :
-  let c := run_sched GLocked [] x_two x_sched_twice x_lone [x_e0] in
+(* the same race against the code with the lock: both tasks want the window, the second one has to
+   wait (choices 4 and 6 are no-ops: task 0 is blocked on the lock) and then finds the client gone *)
+Definition x_sched_locked : list nat := [0; 1; 1; 0; 1; 0; 1; 0; 0; 1; 1].
+Example locked_same_race :
+  let c := run_sched GLocked [] x_two x_sched_locked x_lone [x_e0] in
   all_done c = true /\ hcount (x_S "S0") x_sl (c_log c) = 1 /\ raised (c_log c) = false /\
-  c_mgr c = mgr_init.
+  c_mgr c = mgr_init /\
+  nth 3 (trace GLocked [] (init GLocked x_lone [x_e0] x_two) x_sched_locked) [LOther 0] = [] /\
+  nth 7 (trace GLocked [] (init GLocked x_lone [x_e0] x_two) x_sched_locked) [] = [LAcquire].
 Proof. vm_compute. repeat split. Qed.
 
 (* three causes on the richer state: a schedule without double check exists and is not trivial *)
 Definition x_three : list cause :=
   [CLoss x_e0 (s2l "transport close"); CApi (x_S "S0") x_sl; CClient x_e0 x_nb].
 Definition x_sched_ok : list nat := [1; 1; 0; 0; 0; 2; 0; 0; 0; 2; 1; 0; 1; 0; 1; 0].
-Example x_sched_ok_ndc : no_double_check GThread [] (init x_full [x_e0; x_e1] x_three) x_sched_ok.
+Example x_sched_ok_ndc : no_double_check GThread [] (init GThread x_full [x_e0; x_e1] x_three) x_sched_ok.
 Proof. vm_compute. repeat split. Qed.
 Example x_sched_ok_run :
   let c := run_sched GThread [] x_three x_sched_ok x_full [x_e0; x_e1] in
@@ -1356,7 +1553,7 @@ Proof. vm_compute. repeat split. Qed.
 
 (* one task after the other *)
 Definition x_sched_seq : list nat := repeat 1 5 ++ repeat 0 12 ++ repeat 2 3.
-Example x_sched_seq_sequential : sequential GThread [] (init x_full [x_e0; x_e1] x_three) x_sched_seq.
+Example x_sched_seq_sequential : sequential GThread [] (init GThread x_full [x_e0; x_e1] x_three) x_sched_seq.
 Proof. vm_compute. repeat split. Qed.
 Example x_sched_seq_run :
   all_done (run_sched GThread [] x_three x_sched_seq x_full [x_e0; x_e1]) = true.
